@@ -122,7 +122,7 @@ int main(int argc, char** argv) {
         std::cout << (r.inconclusive ? "INCONCLUSIVE\n" : "PASS\n");
         return 0;
     }
-    if (args.mode == "dfs") return dfsMain(args, st, TAG, (int)args.num("structure", ST_SET));
+    if (args.mode == "dfs") return dfsMain(args, st, pending, TAG, (int)args.num("structure", ST_SET));
     hc::setRcParams(args);
     Case lastFail;
     std::string lastMsg;
